@@ -8,11 +8,19 @@
    [den e xs x] is the value in R of the formula e at the element x of the column xs ([None] = not a
    finite real number: numpy gives nan or +-inf); [rhe] is rounding half to even. *)
 From Coq Require Import List NArith ZArith QArith Reals.
-From Outrank Require Import Features.Transform Gen.Presets Gen.TransformConstants Features.TransformTables
-  Features.TransformProofs.
+From Outrank Require Import Features.Transform Features.Transform3 Gen.Presets Gen.TransformConstants
+  Features.TransformTables Features.TransformProofs Features.Transform3Proofs.
 Import ListNotations.
 Local Close Scope Q_scope.
 Local Open Scope R_scope.
+
+(* SCOPE OF THE FORMULA THEOREMS.  C12_fw_* and C12_named_* are exact statements over the real numbers.  The property's
+   "up to floating-point rounding" is NOT proved (no floating-point error theorem; clause reported as PARTIAL): the
+   check compares the implementation's doubles with an independent IEEE evaluation of the same translated tree and
+   counts the cells where the doubles leave the real value.  Known divergence: _tr_log(x + sqrt(pow(x,2), 1) -- over R
+   it is arcsinh x for all x (C12_named_arcsinh), in doubles it is +inf for |x| >= 1.35e154 (x^2 overflows), loses more
+   than 1e-9 relative accuracy for x <= -8e3 and is -inf for x <= -3e8 (cancellation in x + sqrt(x^2+1)).  The other
+   nine default formulas and the fw family involve no overflow below 1e154 and no cancellation. *)
 
 (* ---- the fw family: the two numbers in the name determine the function ------------------- *)
 
@@ -66,7 +74,8 @@ Theorem C12_named_sign_log : exists e, lookup nm_sign_log default_table = Some e
   /\ forall xs x, den e xs x = (if Reqb x 0 then None else Some (if Rltb 0 x then ln x else - ln (- x))).
 Proof. exact named_sign_log. Qed.
 
-(* log(x + sqrt(pow(x,2) + 1)) = arcsinh x, defined on all of R *)
+(* log(x + sqrt(pow(x,2) + 1)) = arcsinh x, defined on all of R.  Over R only: the doubles agree with this (to 1e-9
+   relative) for -8e3 <= x < 1.35e154 and diverge outside (see SCOPE above); the check counts those cells. *)
 Theorem C12_named_arcsinh : exists e, lookup nm_arcsinh default_table = Some e
   /\ forall xs x, den e xs x = Some (arcsinh x).
 Proof. exact named_arcsinh. Qed.
@@ -192,7 +201,87 @@ Theorem C12_model_emitted : forall preset col rendered sel, select preset = Some
                           /\ n = col ++ k.
 Proof. exact model_emitted. Qed.
 
+(* ---- the composition: raw cells -> numeric parse -> named formula -> text -> keep rule ---------------------- *)
+(* [construct render id sel col cells]: parse every raw cell as get_vals does ([parse_cell3]: quote removed, empty = 0,
+   otherwise Python's float(): blanks, sign, underscores, nan, inf), evaluate every selected formula on the parsed
+   column with [den3] (real arithmetic on finite values, IEEE rules for signed zeros, nan, +-inf; no rounding, no
+   overflow), turn every value into text with [render] (numpy's astype(str), abstract) and apply the keep rule to the
+   text.  The property's sentence: *)
+Theorem C12_emitted_iff : forall (render : gval R -> str) (sel : list (str * expr)) col cells out,
+  construct render (fun e => e) sel col cells = Some out ->
+  exists xs, parse_column OpsR cells = Some xs /\
+  forall n, In n out <->
+    exists k e txt, In (k, e) sel /\ n = col ++ k
+      /\ rendered_column render e xs = Some txt
+      /\ (1 < distinct txt /\ 5 * maxcount txt < 4 * length txt /\ 4 * count nan_str txt < 3 * length txt)%nat.
+Proof. exact emitted_iff. Qed.
+
+(* the statistics of the text are the statistics of the value classes (same finite number with the same zero sign /
+   nan / same infinity), provided [render] is faithful on the set D of values that occur: equal text iff same class,
+   "nan" iff nan.  ASSUMPTION about numpy's astype(str) on doubles (shortest round-trip repr); it cannot hold on all of
+   R (countably many strings), hence the explicit domain D. *)
+Theorem C12_text_classes : forall (render : gval R -> str) (D : gval R -> Prop),
+  (forall a b, D a -> D b -> str_eqb (render a) (render b) = gsame OpsR a b) ->
+  (forall a, D a -> str_eqb nan_str (render a) = gisnan a) ->
+  forall vs, Forall D vs -> keep_spec (map render vs) = keep_by (gsame OpsR) (@gisnan R) vs.
+Proof. exact keep_text_iff_classes. Qed.
+
+(* the executable instance (arithmetic in Q; sqrt of rational squares, ln 1) computes the specification wherever it
+   answers, and so does the keep decision [keepQ] the harness evaluates on raw columns *)
+Theorem C12_denQ_sound : forall e xs x v,
+  denQ e xs x = Some v -> den3 e (map (gmap Q2R) xs) (gmap Q2R x) = Some (gmap Q2R v).
+Proof. exact denQ_sound. Qed.
+
+Theorem C12_exact_model_sound : forall (render : gval R -> str) (D : gval R -> Prop),
+  (forall a b, D a -> D b -> str_eqb (render a) (render b) = gsame OpsR a b) ->
+  (forall a, D a -> str_eqb nan_str (render a) = gisnan a) ->
+  forall e cells b, keepQ e cells = Some b ->
+  exists xs vs, parse_column OpsR cells = Some xs
+    /\ map (den3 e xs) xs = map Some vs
+    /\ rendered_column render e xs = Some (map render vs)
+    /\ (Forall D vs -> keep_spec (map render vs) = b).
+Proof. exact keepQ_sound. Qed.
+
+(* on finite data den3 refines den: where the formula has a real value in the sense of the C12_named / C12_fw theorems
+   (every intermediate result finite), den3 yields that finite value (with some zero sign) *)
+Theorem C12_den3_refines_den : forall e xs xs3 x x3 r,
+  Forall2 isfin xs3 xs -> isfin x3 x -> den e xs x = Some r -> exists g, den3 e xs3 x3 = Some g /\ isfin g r.
+Proof. exact den_den3. Qed.
+
+(* ---- numeric parse, four-way (value / nan / inf / ValueError) ------------------------------------------------- *)
+(* the parse with the constants of the source = the parse of the property *)
+Theorem C12_parse3 : forall s, pres_eq (parse_cell_code s) (parse_cell3 s).
+Proof. exact parse_cell_code_spec. Qed.
+
+(* a specification of the parser that is not the parser: it reads every decimal numeral as Coq's own number notation
+   does (N.of_uint), and it inverts the decimal printer *)
+Theorem C12_parse_numeral : forall u, u <> Decimal.Nil ->
+  parse_py (uint_codes u) = PVal (inject_Z (Z.of_N (N.of_uint u))) false.
+Proof. exact parse_py_numeral. Qed.
+
+Theorem C12_parse_print : forall n, parse_py (dec n) = PVal (inject_Z (Z.of_N n)) false.
+Proof. exact parse_py_print. Qed.
+
+(* ---- doubles vs integers in the keep rule --------------------------------------------------------------------- *)
+(* for ANY rounding rn of the quotient that is monotone and has relative error <= 2^-53 (IEEE division and the
+   literals 0.80, 0.75 rounded to nearest are such), and n < 2^50 rows: the float tests of the source decide exactly as
+   the integer inequalities of C12_keep *)
+Theorem C12_float_thresholds : forall rn : R -> R,
+  (forall x y, (x <= y)%R -> (rn x <= rn y)%R) ->
+  (forall x, (0 <= x)%R -> (x * (1 - / 2 ^ 53) <= rn x <= x * (1 + / 2 ^ 53))%R) ->
+  forall k n : Z, (0 <= k)%Z -> (0 < n)%Z -> (n < 2 ^ 50)%Z ->
+    ((rn (IZR k / IZR n) < rn (4 / 5))%R <-> (5 * k < 4 * n)%Z)
+    /\ ((rn (IZR k / IZR n) < rn (3 / 4))%R <-> (4 * k < 3 * n)%Z).
+Proof. exact float_thresholds. Qed.
+
+(* the three modelled presets are keys of the vault's registry; C12_union speaks about lists over these three only
+   (the registry's other keys -- extended, verbose, extended_rounded -- are outside the property and not modelled) *)
+Theorem C12_registry_subset : forallb (fun n => mem n vault_registry_keys) (names registry) = true.
+Proof. exact registry_subset. Qed.
+
 Print Assumptions C12_fw_family.
 Print Assumptions C12_named_arcsinh.
 Print Assumptions C12_keep.
 Print Assumptions C12_union.
+Print Assumptions C12_emitted_iff.
+Print Assumptions C12_exact_model_sound.
